@@ -88,6 +88,20 @@ def run_valid(el, lib, tmp, viol, c, label):
         return ('ok', None, None)
 
     o = outcome(el)
+    if o[0] == 'ok' or o[0] == 'reserialise-raises':
+        # serialised with intelligent_choice=True (a fresh parse): where that returns, it must give the input back as well
+        tmp.write(docs.to_text(el))
+        r2 = lib.call(parse_musicxml, tmp.name)
+        s2 = lib.call(r2[1].to_string, True) if r2[0] == 'ok' else r2
+        if s2[0] == 'ok':
+            c['valid_also_serialised_with_intelligent_choice'] += 1
+            d2 = docs.infoset_diff(copy.deepcopy(el), ET.fromstring(s2[1]), lenient_ws=True, limit=4)
+            if d2:
+                viol.append({'sig': {'kind': 'infoset-differs', 'type': ref.eltype(el.tag), 'intelligent_choice': 'on',
+                                     'what': d2[0][1], 'at': d2[0][0].split('/')[-1]},
+                             'case': {'text': docs.to_text(el), 'label': label, 'half': 'valid', 'ic': True},
+                             'detail': {'diff': [list(map(str, x)) for x in d2[:3]]}})
+                return 'violated'
     if o[0] == 'ok':
         return 'ok'
     kind = o[0]
@@ -143,17 +157,30 @@ def run_mutant(el, how, lib, tmp, viol, c):
         c['mutant_raise:' + type(r[1]).__name__] += 1
         return 'raised'
     s = lib.call(r[1].to_string)
+    lost = []
+    flag = 'off'
     if s[0] == 'exc':
         c['mutant_reserialise_raised'] += 1
-        return 'raised'
-    c['mutant_parser_returned'] += 1
-    out = ET.fromstring(s[1])
-    lost = docs.lost_items(el, out)
+    else:
+        c['mutant_parser_returned'] += 1
+        lost = docs.lost_items(el, ET.fromstring(s[1]))
+    if not lost:
+        # the other way of writing the tree back (what write(path, intelligent_choice=True) emits), on a fresh parse
+        r2 = lib.call(parse_musicxml, tmp.name)
+        s2 = lib.call(r2[1].to_string, True) if r2[0] == 'ok' else r2
+        if s2[0] == 'ok':
+            c['mutant_also_serialised_with_intelligent_choice'] += 1
+            lost = docs.lost_items(el, ET.fromstring(s2[1]))
+            flag = 'on'
+        elif s[0] == 'exc':
+            return 'raised'
     if lost:
         kinds = sorted({l[0] for l in lost})
         for k in kinds:
             first = next(l for l in lost if l[0] == k)
             sig = {'kind': 'silent-loss', 'lost': k}
+            if flag == 'on':
+                sig['intelligent_choice'] = 'on'
             if k == 'attribute':
                 sig['attr'] = first[2]
             if k in ('text', 'tail'):
@@ -248,7 +275,7 @@ def run_shard(shard, tier, seed):
             for w in sorted(words):
                 if len(set(w)) < 2:
                     continue
-                perms += [(w, p_) for p_ in set(itertools.permutations(w)) if p_ != w]
+                perms += [(w, p_) for p_ in set(itertools.permutations(w))]         # the valid order itself included
             perms.sort()
             cap = 150 if tier == 'quick' else 2500
             if len(perms) > cap:
